@@ -14,7 +14,7 @@ import (
 //
 // The raw memory layer mixes two kinds of integers: numbers of rows (table lengths, counts, row indices) and numbers
 // of bytes (item sizes, and rows multiplied by an item size). Positions that take bytes are found structurally: the
-// bounds of a byte-array view of a raw pointer (`(*[N]byte)(p)[:n:n]`), the offset of `unsafe.Add`, and - transitively -
+// bounds of a byte-array view of a raw pointer (`(*[N]byte)(p)[:n:n]`, `unsafe.Slice((*byte)(p), n)`), the offset of `unsafe.Add`, and - transitively -
 // every argument that reaches such a position through a parameter (which is how the raw-copy role's size argument is
 // found without naming it). For each such position the dimension of the expression is computed by simple dimensional
 // analysis: item-size fields and constants, `unsafe.Sizeof`, `reflect.Type.Size()` and the length of a byte slice are
@@ -349,6 +349,14 @@ func c11r5(c *core.Ctx) {
 					if o, ok := m.Info.ObjectOf(sel.Sel).(*types.Builtin); ok && o.Name() == "Add" {
 						add(f, x.Args[1], "the byte offset of unsafe.Add", 0)
 					}
+					// unsafe.Slice((*byte)(p), n): a byte view of n bytes
+					if o, ok := m.Info.ObjectOf(sel.Sel).(*types.Builtin); ok && o.Name() == "Slice" {
+						if pt, ok := m.Info.TypeOf(x.Args[0]).Underlying().(*types.Pointer); ok {
+							if b, ok := pt.Elem().Underlying().(*types.Basic); ok && b.Kind() == types.Uint8 {
+								add(f, x.Args[1], "the length of a byte view of raw memory (unsafe.Slice)", 0)
+							}
+						}
+					}
 				}
 			}
 			return true
@@ -371,4 +379,278 @@ func c11r5(c *core.Ctx) {
 			c.OK("C11/R5", subject, c.At(p.e.Pos()), "dimension "+d.String()+" in a byte position ("+strings.SplitN(what, ",", 2)[0]+")")
 		}
 	}
+}
+
+// C11/R6: the pointer-free flag of a column describes the column's own element type.
+//
+// Whether a column may be copied and zeroed as raw bytes is decided per component type and looked up, like the type
+// itself, in the component registry by the component's id. Wherever a column value is constructed, the expression
+// that gives its element type and the one that gives its pointer-free flag (followed through constructor parameters to
+// the call sites) must select the same registry entry: both registry lookups are indexed by the same expression, or
+// the flag is computed from that very type. A flag taken from another entry (the column index instead of the
+// component id, say) lets a pointer-holding component be moved without write barriers.
+func c11r6(c *core.Ctx) {
+	m := c.M
+	n := 0
+	type pair struct {
+		f      *core.Func
+		tp, fl ast.Expr
+		site   ast.Node
+	}
+	var pairs []pair
+	var follow func(f *core.Func, tp, fl ast.Expr, site ast.Node, depth int)
+	follow = func(f *core.Func, tp, fl ast.Expr, site ast.Node, depth int) {
+		tpar, fpar := -1, -1
+		if id := identOf(m.StripConv(tp)); id != nil {
+			if v, ok := m.Info.ObjectOf(id).(*types.Var); ok {
+				if i, isP := paramIndexOf(f, v); isP {
+					tpar = i
+				}
+			}
+		}
+		if id := identOf(m.StripConv(fl)); id != nil {
+			if v, ok := m.Info.ObjectOf(id).(*types.Var); ok {
+				if i, isP := paramIndexOf(f, v); isP {
+					fpar = i
+				}
+			}
+		}
+		if tpar >= 0 && fpar >= 0 && depth < 3 {
+			for _, cs := range m.CallSites() {
+				if cs.Callee == f && tpar < len(cs.Call.Args) && fpar < len(cs.Call.Args) {
+					follow(cs.Caller, cs.Call.Args[tpar], cs.Call.Args[fpar], cs.Call, depth+1)
+				}
+			}
+			return
+		}
+		pairs = append(pairs, pair{f, tp, fl, site})
+	}
+	for _, f := range m.AllFuncs() {
+		if f.Body == nil {
+			continue
+		}
+		for _, cn := range constructionsOf(m, f) {
+			if cn.typ != "column" {
+				continue
+			}
+			tp, fl := cn.fields["column.elemType"], cn.fields["column.isTrivial"]
+			if tp == nil || fl == nil {
+				continue
+			}
+			follow(f, tp, fl, cn.node, 0)
+		}
+	}
+	regIndex := func(e ast.Expr, key string) (string, bool) {
+		ix, ok := ast.Unparen(m.InlineLocals(e)).(*ast.IndexExpr)
+		if !ok || fieldKeyOf(m, ix.X) != key {
+			return "", false
+		}
+		return m.ExprString(m.StripConv(ix.Index)), true
+	}
+	for _, p := range pairs {
+		subject := fmt.Sprintf("%s: element type %s / pointer-free flag %s", p.f.Name, m.RawString(p.tp), m.RawString(p.fl))
+		ti, tok := regIndex(p.tp, "registry.Types")
+		fi, fok := regIndex(p.fl, "componentRegistry.IsTrivial")
+		switch {
+		case tok && fok && ti == fi:
+			n++
+			c.OK("C11/R6", subject, c.At(p.site.Pos()), "type and flag are the registry entries of the same component id "+ti)
+		case tok && fok:
+			n++
+			c.Violation("C11/R6", subject, c.At(p.site.Pos()), fmt.Sprintf("%s builds a column whose element type is the registry entry %s but whose pointer-free flag is the entry %s; a pointer-holding component could be copied and zeroed as raw bytes (no write barriers), or a plain one through reflection", p.f.Name, ti, fi))
+		default:
+			// the flag computed from the type itself, or forms this rule does not know: nothing to compare
+			if call, ok := ast.Unparen(m.InlineLocals(p.fl)).(*ast.CallExpr); ok && len(call.Args) == 1 && m.ExprString(call.Args[0]) == m.ExprString(p.tp) {
+				n++
+				c.OK("C11/R6", subject, c.At(p.site.Pos()), "the flag is computed from the element type itself")
+			} else {
+				c.Info("C11/R6", subject, c.At(p.site.Pos()), "type and flag are not both registry lookups; not compared")
+			}
+		}
+	}
+	if n == 0 {
+		c.Undecide("C11/R6", "column constructions", "no column construction whose element type and pointer-free flag could be compared")
+	}
+}
+
+// C11/R7: the zero buffer is as large as the largest column item.
+//
+// Rows are zeroed by copying from one per-archetype zero buffer (`archetypeData.zeroValue`), so that buffer must be at
+// least as long as the item size of every column of the archetype, relation columns included. Where the buffer is
+// allocated, its length is a local maximum; the rule requires that the loop which records the per-column item sizes
+// (the stores into the item-size list) raises that maximum for every column: the update `if size > max { max = size }`
+// is a statement of that loop's body that every iteration reaches (no `continue`, `break` or enclosing condition in
+// front of it), and it compares the very size that is recorded.
+func c11r7(c *core.Ctx) {
+	m := c.M
+	n := 0
+	for _, f := range m.AllFuncs() {
+		if f.Body == nil {
+			continue
+		}
+		for _, cn := range constructionsOf(m, f) {
+			zv := cn.fields["archetypeData.zeroValue"]
+			if zv == nil {
+				continue
+			}
+			n++
+			subject := f.Name + ": size of the zero buffer"
+			// the buffer: a local assigned make([]byte, M)
+			var maxVar *types.Var
+			for _, e := range append([]ast.Expr{zv}, localDefsOfExpr(m, f, zv)...) {
+				if call, ok := ast.Unparen(e).(*ast.CallExpr); ok && m.IsBuiltin(call, "make") && len(call.Args) >= 2 {
+					if id := identOf(m.StripConv(call.Args[1])); id != nil {
+						maxVar, _ = m.Info.ObjectOf(id).(*types.Var)
+					}
+				}
+			}
+			if maxVar == nil {
+				c.Info("C11/R7", subject, c.At(zv.Pos()), "the buffer is not allocated with a local maximum as its length; not compared")
+				continue
+			}
+			// the update of the maximum
+			var upd *ast.IfStmt
+			var sizeExpr ast.Expr
+			core.InspectNoLits(f.Body, func(x ast.Node) bool {
+				is, ok := x.(*ast.IfStmt)
+				if !ok || len(is.Body.List) != 1 {
+					return true
+				}
+				as, ok := is.Body.List[0].(*ast.AssignStmt)
+				if !ok || len(as.Lhs) != 1 || len(as.Rhs) != 1 {
+					return true
+				}
+				if id := identOf(as.Lhs[0]); id == nil || m.Info.ObjectOf(id) != types.Object(maxVar) {
+					return true
+				}
+				be, ok := ast.Unparen(is.Cond).(*ast.BinaryExpr)
+				if !ok || (be.Op != token.GTR && be.Op != token.LSS && be.Op != token.GEQ && be.Op != token.LEQ) {
+					return true
+				}
+				upd, sizeExpr = is, as.Rhs[0]
+				return true
+			})
+			if upd == nil {
+				// max(a, b) form
+				core.InspectNoLits(f.Body, func(x ast.Node) bool {
+					as, ok := x.(*ast.AssignStmt)
+					if !ok || len(as.Lhs) != 1 || len(as.Rhs) != 1 {
+						return true
+					}
+					if id := identOf(as.Lhs[0]); id == nil || m.Info.ObjectOf(id) != types.Object(maxVar) {
+						return true
+					}
+					if call, ok := ast.Unparen(as.Rhs[0]).(*ast.CallExpr); ok && m.IsBuiltin(call, "max") && len(call.Args) == 2 {
+						for _, a := range call.Args {
+							if id := identOf(a); id == nil || m.Info.ObjectOf(id) != types.Object(maxVar) {
+								sizeExpr = a
+							}
+						}
+					}
+					return true
+				})
+				if sizeExpr == nil {
+					c.Info("C11/R7", subject, c.At(zv.Pos()), "no recognisable update of the maximum; not compared")
+					continue
+				}
+			}
+			// the loop that records the item sizes, and whether the update is reached by every iteration of it
+			var recLoop ast.Node
+			var recorded ast.Expr
+			core.InspectNoLits(f.Body, func(x ast.Node) bool {
+				_, body, ok := elementLoop(m, x)
+				if !ok || body == nil {
+					return true
+				}
+				for _, st := range body.List {
+					if as, ok := st.(*ast.AssignStmt); ok && len(as.Lhs) == 1 && len(as.Rhs) == 1 {
+						if ix, ok := ast.Unparen(as.Lhs[0]).(*ast.IndexExpr); ok {
+							for _, e := range append([]ast.Expr{ix.X}, localDefsOfExpr(m, f, ix.X)...) {
+								_ = e
+							}
+							if sizesList(m, f, ix.X, cn) {
+								recLoop, recorded = x, as.Rhs[0]
+							}
+						}
+					}
+				}
+				return true
+			})
+			if recLoop == nil {
+				c.Info("C11/R7", subject, c.At(zv.Pos()), "the loop that records the item sizes was not recognised; not compared")
+				continue
+			}
+			_, body, _ := elementLoop(m, recLoop)
+			reached := false
+			for _, st := range body.List {
+				if upd != nil && st == ast.Stmt(upd) {
+					reached = true
+					break
+				}
+				if upd == nil && st.Pos() <= sizeExpr.Pos() && sizeExpr.End() <= st.End() {
+					if _, isAs := st.(*ast.AssignStmt); isAs {
+						reached = true
+					}
+					break
+				}
+				// anything that can leave the iteration before the update
+				leaves := false
+				ast.Inspect(st, func(y ast.Node) bool {
+					switch z := y.(type) {
+					case *ast.FuncLit:
+						return false
+					case *ast.BranchStmt:
+						if z.Tok == token.CONTINUE || z.Tok == token.BREAK || z.Tok == token.GOTO {
+							leaves = true
+						}
+					case *ast.ReturnStmt:
+						leaves = true
+					}
+					return true
+				})
+				if leaves {
+					break
+				}
+			}
+			same := m.ExprString(m.StripConv(sizeExpr)) == m.ExprString(m.StripConv(recorded))
+			switch {
+			case reached && same:
+				c.OK("C11/R7", subject, c.At(zv.Pos()), "every column's recorded item size raises the maximum that becomes the length of the zero buffer")
+			case !reached:
+				c.Violation("C11/R7", subject, c.At(zv.Pos()), fmt.Sprintf("%s allocates the zero buffer with length %s, but the update of %s is not reached by every iteration of the loop that records the item sizes (a column can be skipped); rows of a skipped, larger column would be zeroed from beyond the end of the buffer", f.Name, maxVar.Name(), maxVar.Name()))
+			default:
+				c.Violation("C11/R7", subject, c.At(zv.Pos()), fmt.Sprintf("%s records item size %s but raises the zero-buffer length with %s", f.Name, m.RawString(recorded), m.RawString(sizeExpr)))
+			}
+		}
+	}
+	if n == 0 {
+		c.Undecide("C11/R7", "zero buffer", "no construction of archetypeData with a zero buffer found")
+	}
+}
+
+// localDefsOfExpr: the definitions of e when e is a local (all of them, in any enclosing function).
+func localDefsOfExpr(m *core.Model, f *core.Func, e ast.Expr) []ast.Expr {
+	id := identOf(e)
+	if id == nil {
+		return nil
+	}
+	v, ok := m.Info.ObjectOf(id).(*types.Var)
+	if !ok || v.IsField() {
+		return nil
+	}
+	var out []ast.Expr
+	for fn := f; fn != nil; fn = fn.Parent {
+		out = append(out, localDefsOf(m, fn, v)...)
+	}
+	return out
+}
+
+// sizesList: x is the list that construction cn stores as the item-size list of the archetype.
+func sizesList(m *core.Model, f *core.Func, x ast.Expr, cn construction) bool {
+	want := cn.fields["archetypeData.itemSizes"]
+	if want == nil {
+		return false
+	}
+	a, b := identOf(x), identOf(want)
+	return a != nil && b != nil && m.Info.ObjectOf(a) == m.Info.ObjectOf(b)
 }
